@@ -464,7 +464,7 @@ def check_C16(ctx):
     ctx.validate(paths)
     funs = 'mpz_fac_ui:mpz_2fac_ui:mpz_mfac_uiui:mpz_primorial_ui:mpz_bin_ui:mpz_bin_uiui:mpz_fib_ui:mpz_fib2_ui:mpz_lucnum_ui:mpz_lucnum2_ui:mpz_remove'
     ctx.validate(ctx.run_driver(b, 'alias', shards=8, extra='funs=' + funs, tier='thorough', timeout=900))
-    trace_drivers(ctx, [('c16_comb', 16, 1500), ('c16_bin', 16, 1500), ('c16_prime', 16, 1500), ('k5_comb', 8, 900), ('k5_prime', 8, 900)], pure_drivers=['c16_comb', 'c16_bin', 'k5_comb'])
+    trace_drivers(ctx, [('c16_comb', 16, 1500), ('c16_bin', 16, 1500), ('c16_prime', 16, 1500), ('k5_comb', 8, 900), ('k5_prime', 8, 900), ('c16_psp', 16, 1200)], pure_drivers=['c16_comb', 'c16_bin', 'k5_comb'])
     # k5_*: the internal helpers called directly: mpn_fib2_ui, mpz_oddfac_1 (both flags), mpz_prodlimbs, gmp_primesieve (whole bit array), gmp_nextprime (sequence), mpz_trial_division
     return ctx.finish('model_checking',
         rule='R2: BinDispatch = the selection of mpz_bin_uiui with the table limits of the tree: every basecase result, odd factorial and odd central binomial table entry fits a limb and each '
